@@ -248,7 +248,7 @@ macro_rules! tuple_check {
 pub fn check(rep: &Reporter) {
 	let maxlen = if rep.tier.thorough() { 6 } else { 5 };
 	rep.set_rule(&format!(
-		"all insert sequences of length 0..{maxlen} over {} value kinds (scalars, strings needing escapes, Unicode, nested containers, unit struct, and five Serialize impls that fail before writing / inside a sequence / inside a map value / on a non-string key / inside a struct field) into ArrayParams and into ObjectParams under 3 key schemes (incl. duplicate and escaped keys); every history is distinct by construction; rpc_params! with 0..4 arguments over the non-failing kinds, tuples of arity 1..16, slices / arrays / Vec of length 0..3, serde_json::Map, BatchRequestBuilder with 0..3 entries. Oracle: serde_json::to_value of each inserted value and a pair-preserving parse of the emitted text.",
+		"all insert sequences of length 0..{maxlen} over {} value kinds (scalars, strings needing escapes, Unicode, nested containers, unit struct, and five Serialize impls that fail before writing / inside a sequence / inside a map value / on a non-string key / inside a struct field) into ArrayParams and into ObjectParams under 3 key schemes (incl. duplicate and escaped keys); every history is distinct by construction; rpc_params! with 0..4 arguments over the non-failing kinds, tuples of arity 1..16, slices / arrays / Vec of length 0..3, serde_json::Map, BatchRequestBuilder with 0..3 entries incl. entries whose params fail to serialise. Oracle: serde_json::to_value of each inserted value and a pair-preserving parse of the emitted text.",
 		VS.len()
 	));
 	rep.assume("serde_json::to_value of a value is the reference for what 'the inserted value' is");
@@ -442,9 +442,16 @@ pub fn check(rep: &Reporter) {
 						rep.violation("batch:insert-err", &format!("batch insert of valid params failed for {v:?}"), json!({"kind":"batch"}));
 					}
 					exp.push((names[k].to_string(), Some(json!([v]))));
-				} else if k == 1 {
-					let _ = b.insert(names[k], ArrayParams::new());
-					exp.push((names[k].to_string(), None));
+				} else {
+					// params whose serialisation fails (a Vec holding the failing value): the insert must report the error
+					// and add nothing to the batch
+					if b.insert(names[k], vec![*v]).is_ok() {
+						rep.violation("batch:failing-params-accepted", &format!("batch insert of params that fail to serialise ({v:?}) returned Ok"), json!({"kind":"batch"}));
+					}
+					if k == 1 {
+						let _ = b.insert(names[k], ArrayParams::new());
+						exp.push((names[k].to_string(), None));
+					}
 				}
 			}
 			let iter_view: Vec<(String, Option<Value>)> = b.iter().map(|(m, p)| (m.to_string(), p.map(|r| serde_json::from_str(r.get()).unwrap()))).collect();
